@@ -15,7 +15,7 @@ use serde::{Deserialize, Serialize};
 use serde_json::json;
 use std::sync::{Arc, Mutex, OnceLock};
 
-pub const RULE: &str = "(position with <= 64 legal moves: few-piece endgames, cage/pin themes, small placements, reachable walks; depth 2..4 (4 only for <= 4 men, 3 for <= 8 men); 0..3 prior searches run sequentially in a 1-thread pool to fix the initial cache contents) x (rayon pool of 2/3/4/16/64 threads uncontrolled; pool of 64 threads under the controlled scheduler with a generated strategy: in-order, permuted run-to-completion, PCT priorities with change points, round-robin quantum, random walk, explicit single preemptions of a run-to-completion order; when a run shows a cache entry that was stored and later replaced by a different value, further single-preemption schedules are aimed at those store steps - the observation only directs the search, the verdict is always the comparison below). The scheduler (a SearchObserver installed through the cfg(chess_verif) hooks) parks every root-move task at TaskBegin, then lets exactly one task run at a time and hands over only at shared-cache reads / writes and task ends, so the interleaving of cache accesses is a generated input. Oracle: (move tuple, last_score) of every run == the 1-thread in-order run on a freshly prepared identical context; a panic under any schedule is a violation; if the tasks do not all reach the barrier in time the scheduler releases them (run counted as given up, result still compared); a hang is caught by the watchdog (exit 2). Non-trivial = the controlled run switched tasks at a cache access at least once and saw at least one cache hit on an entry written by another task; distinct = (position, prior, strategy) hash.";
+pub const RULE: &str = "(position with <= 64 legal moves: few-piece endgames, cage/pin themes, small placements, reachable walks; depth 2..5 (5 only for <= 3 men, 4 for <= 4 men, 3 for <= 8 men); 0..3 prior searches run sequentially in a 1-thread pool to fix the initial cache contents) x (rayon pool of 2/3/4/16/64 threads uncontrolled; pool of 64 threads under the controlled scheduler with a generated strategy: in-order, permuted run-to-completion, PCT priorities with change points, round-robin quantum, random walk, explicit single preemptions of a run-to-completion order; when a run shows a cache entry that was stored and later replaced by a different value, further single-preemption schedules are aimed at those store steps - the observation only directs the search, the verdict is always the comparison below). The scheduler (a SearchObserver installed through the cfg(chess_verif) hooks) parks every root-move task at TaskBegin, then lets exactly one task run at a time and hands over only at shared-cache reads / writes and task ends, so the interleaving of cache accesses is a generated input. Oracle: (move tuple, last_score) of every run == the 1-thread in-order run on a freshly prepared identical context; a panic under any schedule is a violation; if the tasks do not all reach the barrier in time the scheduler releases them (run counted as given up, result still compared); a hang is caught by the watchdog (exit 2). Non-trivial = the controlled run switched tasks at a cache access at least once and saw at least one cache hit on an entry written by another task; distinct = (position, prior, strategy) hash.";
 
 #[derive(Clone, Debug, Serialize, Deserialize)]
 pub struct SchedCase {
@@ -125,12 +125,14 @@ impl Prop for C09Schedules {
                 4 => gen::pawn_race().prop_map(move |r| zero(gen::build(&r))),
                 3 => gen::endgame(4).prop_map(move |r| zero(gen::build(&r))),
                 1 => gen::cage_theme().prop_map(move |r| zero(gen::build(&r))),
+                // the side to move is about to be mated: mate scores carry the remaining depth
+                2 => gen::pre_terminal(),
                 1 => gen::placement(8).prop_map(move |r| zero(gen::build(&r))),
                 1 => gen::walk(40).prop_map(move |w| zero(gen::walk_end(&w))),
             ],
             // depth 4 (tiny positions only) is the first depth at which a transposition between
             // two root-move subtrees is an interior node
-            prop_oneof![1 => Just(2u8), 3 => Just(3u8), 3 => Just(4u8)],
+            prop_oneof![1 => Just(2u8), 3 => Just(3u8), 3 => Just(4u8), 1 => Just(5u8)],
             0u8..=3,
             0u8..5,
             prop::collection::vec(strategy_strategy(), nsched..=nsched),
@@ -159,7 +161,8 @@ impl Prop for C09Schedules {
         let mut pos = Pos::from_fen(&c.fen).map_err(Failure::new)?;
         pos.half = 0;
         let depth = match pos.men() {
-            0..=4 => c.depth,
+            0..=3 => c.depth,
+            4 => c.depth.min(4),
             5..=8 => c.depth.min(3),
             _ => 2,
         };
